@@ -32,7 +32,8 @@ ANCHOR_FILES = [
 ]
 RULE = (
     "kinds: batcher (one case = every batch size 1..n+5 and None x 10 validation ratios x grid/random x shuffle on/off x seed kind for one n; exhaustive over "
-    "(n, batch) for n <= 40 quick / 60 thorough), batcher_random (large n, continuous ratios, explicit train/val index arrays, generator objects), cover "
+    "(n, batch) for n <= 40 quick / 60 thorough; every third configuration additionally as a history on one instance: an epoch / validation pass abandoned after j "
+    "batches by break, a caught exception, zip with a shorter range, close(), a never-started, two interleaved or a kept-alive iterator, followed by ordinary complete epochs), batcher_random (large n, continuous ratios, explicit train/val index arrays, generator objects), cover "
     "(generate_batches/subdivide_batches for all (n, num_batches | max_batch)), insitu (real reconstruct runs with recording wrappers: random scene, batch size incl. "
     "1 / non-dividing / larger than the set, ratio, mode, optimizer, loss), invariance (lr=0 SGD, all loss types, divisors of the training-set size, public path + "
     "explicit chain), determinism (same-seed twins, reset=True rerun). non-trivial = a configuration with >= 2 batches and (a partial last batch or a non-empty "
@@ -86,7 +87,9 @@ def plan(tier, seed):
         if i < ni:
             heavy.append({"kind": "insitu", "i": i})
     cheap = sorted(specs, key=lambda c: (c["kind"] != "batcher", -c.get("n", c.get("n_hi", 30))))  # largest batcher grid first (also the 4th evidence sample)
-    return heavy[:3] + cheap[:1] + heavy[3:] + cheap[1:]
+    # first four = one of each main kind (evidence samples); then the cheap offline cases (seconds in total, they carry deciding monitors and must not be
+    # the ones dropped when an overloaded machine hits the soft budget); then the remaining expensive cases, interleaved by kind
+    return heavy[:3] + cheap[:1] + cheap[1:] + heavy[3:]
 
 
 # ------------------------------------------------------------------------------------------------
@@ -263,6 +266,101 @@ def _same_logs(a, b):
     return True
 
 
+ABANDON = ["break", "exception", "zip", "close", "never_started", "interleaved", "kept_alive", "val_break", "val_interleaved"]
+
+
+class _Abort(Exception):
+    pass
+
+
+def _abandoned_history(ctx, n, bt, mode, j, f):
+    """leave an epoch (or a validation pass) of `bt` unfinished after ~j batches the way a caller can (break, an exception raised in the loop body and
+    caught, zip against a shorter range, an explicitly closed / never started / still alive iterator, two interleaved iterators), then run ordinary
+    complete epochs on the same instance.  Every *complete* pass - the ordinary epochs afterwards and each interleaved / kept-alive iterator consumed to
+    its end - is judged by the usual predicates; returns the log of the ordinary epochs."""
+    tr, va = _ms(bt.train_indices), _ms(bt.val_indices)
+    passes, vpasses = [], []  # complete passes made by iterators that overlapped in time
+    if mode == "break":
+        cnt = 0
+        for _b in bt:
+            cnt += 1
+            if cnt >= j:
+                break
+    elif mode == "exception":
+        cnt = 0
+        try:
+            for _b in bt:
+                cnt += 1
+                if cnt >= j:
+                    raise _Abort()
+        except _Abort:
+            pass
+    elif mode == "zip":
+        list(zip(range(j), bt))  # j == len(bt): every batch is consumed but the iterator never sees its own end
+    elif mode == "close":
+        it = iter(bt)
+        for _ in range(j):
+            next(it, None)
+        it.close()
+    elif mode == "never_started":
+        it = iter(bt)  # noqa: F841  (created, not advanced, dropped)
+        del it
+    elif mode == "interleaved":
+        g1, g2 = iter(bt), iter(bt)
+        a, c = [], []
+        live = [(g1, a), (g2, c)]
+        while live:
+            for g, out in list(live):
+                x = next(g, None)
+                if x is None:
+                    live.remove((g, out))
+                else:
+                    out.append(np.array(x).copy())
+        passes = [a, c]
+    elif mode == "kept_alive":
+        g = iter(bt)
+        first = [np.array(x).copy() for x in (next(g, None) for _ in range(j)) if x is not None]
+        middle = [np.array(x).copy() for x in bt]  # a complete epoch while the older iterator is still alive
+        rest = [np.array(x).copy() for x in g]
+        passes = [middle, first + rest]
+    elif mode == "val_break":
+        cnt = 0
+        for _b in bt.iter_val():
+            cnt += 1
+            if cnt >= j:
+                break
+    elif mode == "val_interleaved":
+        v1, v2 = bt.iter_val(), bt.iter_val()
+        a, c = [], []
+        live = [(v1, a), (v2, c)]
+        while live:
+            for g, out in list(live):
+                x = next(g, None)
+                if x is None:
+                    live.remove((g, out))
+                else:
+                    out.append(np.array(x).copy())
+        vpasses = [a, c]
+    for k, batches in enumerate(passes):
+        got = _ms(np.concatenate(batches)) if batches else []
+        ctx.check(got == tr, "epoch_not_permutation_of_train", lambda: "n=%d %s iterator %d consumed to its end yielded %s..., train set has %d patterns (batch=%s)" % (n, mode, k, got[:10], len(tr), f.get("batch")),
+                  lost=bool(set(tr) - set(got)), duplicated=len(got) != len(set(got)), foreign=bool(set(got) - set(tr)), **f)
+        ctx.check(len(batches) == len(bt), "len_differs_from_yielded", lambda: "n=%d %s iterator %d yielded %d batches, len(batcher)=%d" % (n, mode, k, len(batches), len(bt)), **f)
+    for k, batches in enumerate(vpasses):
+        got = _ms(np.concatenate(batches)) if batches else []
+        ctx.check(got == va, "val_iter_mismatch", lambda: "n=%d %s validation iterator %d yielded %s, validation set is %s" % (n, mode, k, got[:10], va[:10]), **f)
+        ctx.check(len(batches) == bt.val_len(), "val_len_differs_from_yielded", lambda: "val_len()=%d, iterator %d yielded %d" % (bt.val_len(), k, len(batches)), **f)
+    ctx.count("batcher_abandoned_histories")
+    ctx.count("batcher_abandoned_histories:" + mode)
+    log = _drive(bt)
+    _judge_batcher(ctx, n, log, f)
+    return log
+
+
+def _abandon_point(sel, nb):
+    return [0, 1, max(1, nb // 2), max(1, nb - 1), nb, nb + 1][sel % 6]
+
+
 def _mk_rng(kind, s):
     if kind == "int":
         return int(s)
@@ -290,6 +388,9 @@ def _run_batcher(spec, idx, ctx):
                     if kind != "none":
                         log2 = _drive(SB(n, b, shuffle=sh, rng=_mk_rng(kind, s), val_ratio=r, val_mode=mode))
                         ctx.check(_same_logs(log, log2), "same_seed_schedule_differs", lambda: "n=%d batch=%s ratio=%s mode=%s: two batchers from seed %d yield different schedules" % (n, b, r, mode, s), **f)
+                    if (configs + idx) % 3 == 0:
+                        amode = ABANDON[(configs // 3) % len(ABANDON)]
+                        _abandoned_history(ctx, n, SB(n, b, shuffle=sh, rng=_mk_rng(kind, s), val_ratio=r, val_mode=mode), amode, _abandon_point(configs // 27 + configs // 3, nb), dict(f, history=amode))
                     configs += 1
                     if nb >= 2 and (partial or nval > 0):
                         nontriv.add((n, b, r, mode))
@@ -333,6 +434,10 @@ def _run_batcher_random(spec, idx, ctx):
                 kw = {"train_indices": et, "val_indices": ev}
             log2 = _drive(SB(n, b, shuffle=sh, rng=_mk_rng(kind, s), val_ratio=r, val_mode=mode, **kw), epochs=3)
             ctx.check(_same_logs(log, log2), "same_seed_schedule_differs", lambda: "n=%d batch=%s ratio=%s mode=%s" % (n, b, r, mode), **f)
+        amode = ABANDON[int(rng.integers(len(ABANDON)))]
+        if explicit:
+            kw = {"train_indices": et, "val_indices": ev}
+        _abandoned_history(ctx, n, SB(n, b, shuffle=sh, rng=_mk_rng(kind, s), val_ratio=r, val_mode=mode, **kw), amode, _abandon_point(int(rng.integers(6)), nb), dict(f, history=amode))
         if sh and kind != "none" and len(log["train0"]) >= 8:
             ctx.count("shuffled_epochs")
             if _ms(log["epochs"][0][0]) != _ms(log["epochs"][1][0]) or not np.array_equal(np.concatenate(log["epochs"][0]), np.concatenate(log["epochs"][1])):
@@ -763,6 +868,7 @@ def summarize(all_cases, counters, extras):
     return {
         "batcher_configurations_checked": int(counters.get("batcher_configs", 0)),
         "batcher_configurations_nontrivial": int(counters.get("batcher_configs_nontrivial", 0)),
+        "batcher_abandoned_epoch_histories": {k.split(":", 1)[1] if ":" in k else "total": int(v) for k, v in sorted(counters.items()) if k.startswith("batcher_abandoned_histories")},
         "cover_calls_checked": int(counters.get("cover_calls", 0)),
         "insitu_epochs_monitored": int(counters.get("insitu_epochs", 0)),
         "determinism_cases_where_seed_changes_history": "%d/%d" % (counters.get("determinism_cases_where_seed_changes_history", 0), counters.get("determinism_cases", 0)),
